@@ -192,7 +192,22 @@ func diffClass(a, b reflect.Value) string {
 
 var fmtNames = [3]string{"json", "yaml", "toml"}
 
+type loaderSet struct {
+	name string
+	fn   [3]func([]byte, any) error
+}
+
 var loaders = [3]func([]byte, any) error{conf.LoadFromJsonBytes, conf.LoadFromYamlBytes, conf.LoadFromTomlBytes}
+
+var (
+	confLoaders = loaderSet{"conf.LoadFrom{Json,Yaml,Toml}Bytes", loaders}
+	// the format-specific unmarshalers of core/mapping (exact key match, no lower-casing)
+	mappingLoaders = loaderSet{"mapping.Unmarshal{Json,Yaml,Toml}Bytes", [3]func([]byte, any) error{
+		func(b []byte, v any) error { return mapping.UnmarshalJsonBytes(b, v) },
+		func(b []byte, v any) error { return mapping.UnmarshalYamlBytes(b, v) },
+		func(b []byte, v any) error { return mapping.UnmarshalTomlBytes(b, v) },
+	}}
+)
 
 // pattern names who accepts and who rejects, e.g. "json-rejects-yaml-toml-accept".
 func pattern(acc [3]bool) string {
@@ -224,13 +239,15 @@ func (tx texts) witness() map[string]string {
 	return map[string]string{"json": tx[0], "yaml": tx[1], "toml": tx[2]}
 }
 
-func loadAll(rt reflect.Type, tx texts) (res [3]outcome) {
+func loadAllWith(ls loaderSet, rt reflect.Type, tx texts) (res [3]outcome) {
 	for i := range res {
 		i := i
-		res[i] = load(rt, func(v any) error { return loaders[i]([]byte(tx[i]), v) })
+		res[i] = load(rt, func(v any) error { return ls.fn[i]([]byte(tx[i]), v) })
 	}
 	return
 }
+
+func loadAll(rt reflect.Type, tx texts) [3]outcome { return loadAllWith(confLoaders, rt, tx) }
 
 // selfCheck verifies that the YAML and TOML renderings denote the document.
 func selfCheck(c *kit.Case, d *node, tx texts) bool {
@@ -248,12 +265,16 @@ func selfCheck(c *kit.Case, d *node, tx texts) bool {
 }
 
 func reportPanics(c *kit.Case, rt reflect.Type, label string, tx texts, res [3]outcome) bool {
+	return reportPanicsOf(confLoaders.name, c, rt, label, tx, res)
+}
+
+func reportPanicsOf(entry string, c *kit.Case, rt reflect.Type, label string, tx texts, res [3]outcome) bool {
 	found := false
 	for i, o := range res {
 		if o.panic != "" {
 			found = true
-			c.Viol(panicKey(o.panic), "go-zero panicked while loading a document (conf.LoadFrom"+fmtNames[i]+"Bytes)",
-				map[string]any{"type": typeText(rt), "label": label, "format": fmtNames[i], "document": tx[i], "panic": o.panic})
+			c.Viol(panicKey(o.panic), "go-zero panicked while loading a document",
+				map[string]any{"type": typeText(rt), "label": label, "entry_points": entry, "format": fmtNames[i], "document": tx[i], "panic": o.panic})
 		}
 	}
 	return found
@@ -269,14 +290,23 @@ type disagreement struct {
 // the further oracles (no panic, no disagreement), and the disagreement if any (not yet reported:
 // the caller first decides which class of input it belongs to).
 func threeWay(c *kit.Case, rt reflect.Type, label string, tx texts, count bool) ([3]outcome, bool, *disagreement) {
-	res := loadAll(rt, tx)
-	c.Obs("conf_loads", 3)
-	if reportPanics(c, rt, label, tx, res) {
+	return threeWayWith(confLoaders, c, rt, label, tx, count)
+}
+
+func threeWayWith(ls loaderSet, c *kit.Case, rt reflect.Type, label string, tx texts, count bool) ([3]outcome, bool, *disagreement) {
+	res := loadAllWith(ls, rt, tx)
+	if ls.name == confLoaders.name {
+		c.Obs("conf_loads", 3)
+	} else {
+		c.Obs("mapping_loads", 3)
+		count = false
+	}
+	if reportPanicsOf(ls.name, c, rt, label, tx, res) {
 		return res, false, nil
 	}
 	acc := [3]bool{res[0].ok(), res[1].ok(), res[2].ok()}
 	wit := func() map[string]any {
-		return map[string]any{"type": typeText(rt), "documents": tx.witness(),
+		return map[string]any{"type": typeText(rt), "entry_points": ls.name, "documents": tx.witness(),
 			"json_result": res[0].describe(), "yaml_result": res[1].describe(), "toml_result": res[2].describe()}
 	}
 	if acc[0] != acc[1] || acc[0] != acc[2] {
@@ -462,6 +492,21 @@ func runPair(c *kit.Case, t *tdesc, plain bool, scratch string, idx int) {
 				}
 				dis.wit["label"] = lab
 				c.Viol("C17/"+dis.kind+"/"+labelClass(lab)+"/"+dis.pattern, dis.what, dis.wit)
+			}
+			// the same three renderings through core/mapping's own format-specific unmarshalers
+			// (same oracle, same key classes; the witness names the entry points)
+			if _, _, dm := threeWayWith(mappingLoaders, c, t.rt, label, tx0, false); dm != nil {
+				lab := label
+				if base != nil {
+					txb := renderAll(base, rs)
+					if selfCheck(c, base, txb) {
+						if _, _, db := threeWayWith(mappingLoaders, c, t.rt, "well-typed", txb, false); db != nil && db.kind == dm.kind && db.pattern == dm.pattern {
+							lab, dm = "well-typed", db
+						}
+					}
+				}
+				dm.wit["label"] = lab
+				c.Viol("C17/"+dm.kind+"/"+labelClass(lab)+"/"+dm.pattern, dm.what, dm.wit)
 			}
 			nontrivial = sh.nested+sh.slices+sh.maps+sh.ptrs+sh.embedded > 0 || mutated
 			if idx < 2 && c.Index < 3 {
